@@ -239,10 +239,10 @@ func RunShared(r *verifmc.Run, im *Impl) {
 	}
 	uNC := pp.PeersNonCanonicalBits()
 	prod("k_core", kCore, "u_core", uCore)
-	prod("k_small", kSmall, "u_bits", uBits)
-	prod("k_small", kSmall, "u_noncanonical_bits", uNC)
 	var kClamp []Named
 	if th {
+		prod("k_small", kSmall, "u_bits", uBits)
+		prod("k_small", kSmall, "u_noncanonical_bits", uNC)
 		// the limb-structured alphabets are large in this tier: two scalars resp. two peers
 		prod("k_small[:2]", kSmall[:2], "u_limbs", uLimbs)
 		prod("k_bits", kBits, "u_small", uSmall)
@@ -250,8 +250,10 @@ func RunShared(r *verifmc.Run, im *Impl) {
 		kClamp = pp.ScalarsClampSpace(true)
 		prod("k_clamp_space", kClamp, "u_small[:2]", uSmall[:2])
 	} else {
-		prod("k_small", kSmall, "u_limbs", uLimbs)
-		prod("k_bits", kBits, "u_small[:3]", uSmall[:3])
+		prod("k_small[:2]", kSmall[:2], "u_bits", uBits)
+		prod("k_small[:2]", kSmall[:2], "u_noncanonical_bits", uNC)
+		prod("k_small[:2]", kSmall[:2], "u_limbs", uLimbs)
+		prod("k_bits", kBits, "u_small[:2]", uSmall[:2])
 		prod("k_limbs", kLimbs, "u_small[:3]", uSmall[:3])
 	}
 	r.Set("products", products)
